@@ -196,8 +196,16 @@ class BaseLoader(ABC):
         # resource is not accessible.
         url = str(url)
         if url.startswith("package:"):
-            _, package, filename = url.split(":", 2)
-            file = openPackageResource(package, filename)
+            try:
+                _, package, filename = url.split(":", 2)
+            except ValueError:
+                self._raise_open_error(
+                    url, "package: URLs must name a package and a file")
+            try:
+                file = openPackageResource(package, filename)
+            except (ImportError, ValueError) as e:
+                # no such package / empty package name
+                self._raise_open_error(url, str(e))
         else:
             try:
                 file = urllib.request.urlopen(url)
@@ -206,6 +214,10 @@ class BaseLoader(ABC):
                 # we generally don't want to pass it along to the user.
                 self._raise_open_error(url, e.reason)  # pragma: no cover
             except OSError as e:
+                self._raise_open_error(url, str(e))
+            except ValueError as e:
+                # urllib reports a malformed URL ("http://[::1", "data:x")
+                # this way
                 self._raise_open_error(url, str(e))
 
             try:
@@ -274,6 +286,10 @@ class BaseLoader(ABC):
 def openPackageResource(package, path):
     __import__(package)
     pkg = sys.modules[package]
+    if not hasattr(pkg, "__path__"):
+        raise ZConfig.SchemaResourceError(
+            "import name does not refer to a package",
+            filename=path, package=package)
     try:
         loader = pkg.__loader__
     except AttributeError:
